@@ -46,6 +46,8 @@ HARNESSES = {
     # ---- producer/consumer protocol (C01 C12 C14), bounded, sequential
     "b_protocol_cap2_repeated_wakes_concrete": ("hoist", "c12.flag_protocol", "cap 2, concrete 8-step sequence with repeated wakes"),
     "b_protocol_cap3_pushpop_concrete": ("hoist", "c12.flag_protocol", "cap 3, 10 concrete push/pop operations"),
+    "b_push_of_queued_slot_links_once": ("hoist", "c03.node_linked_once", "cap 2, concrete: wake 0, wake 1, owner pushes the queued slot 0, three pops: [0, 1, empty]"),
+    "b_push_of_queued_slot_links_once_rev": ("hoist", "c03.node_linked_once", "cap 2, concrete: wake 1, wake 0, owner pushes the queued slot 1 twice, three pops: [1, 0, empty]"),
     "b_register_and_notify_target": ("hoist", "c01.notify_registered", "cap 2, register(w1)..register(w2): notifications go to the last registered waker; push/repeated wakes do not notify"),
     "b_protocol_cap1_sym3": ("hoist", "c12.flag_protocol", "cap 1, 3 symbolic ops (push / wake_by_ref / pop)"),
     "b_protocol_cap2_sym2": ("hoist", "c12.flag_protocol", "cap 2, 2 symbolic ops"),
